@@ -157,6 +157,12 @@ theorem powerArray_eq_zpow (comb : List (Int × List Int)) (hwf : chainWF comb =
   have l0 : p0.length = 1 + npos + nneg := by simp [hp0]
   have l1 : (PArr.set p0 0 (ofInt 1)).length = 1 + npos + nneg := by rw [length_set']; exact l0
   have l2 : (PArr.set (PArr.set p0 0 (ofInt 1)) 1 v).length = 1 + npos + nneg := by rw [length_set']; exact l1
+  have hz : (le v (ofInt 0 : ℝ) && le (ofInt 0 : ℝ) v) = false := by
+    rw [tf_le', tf_le', tf_ofInt]
+    simp only [Int.cast_zero, Bool.and_eq_false_imp, decide_eq_true_eq, decide_eq_false_iff_not, not_le]
+    intro h; exact lt_of_le_of_ne h hv
+  rw [hz]
+  simp only [Bool.false_eq_true, if_false]
   have hinv : Inv v npos nneg (PArr.set (PArr.set (PArr.set p0 0 (ofInt 1)) 1 v) (-1) (ofInt 1 / v)) [0, 1, -1] := by
     refine ⟨by rw [length_set']; exact l2, ?_⟩
     intro j hj
